@@ -74,17 +74,30 @@ def cases(tier, seed):
                     yield ('fa-tiny', idx, seed, tier)
                 if tier != 'quick' or nscaled % 6 == 3:
                     yield ('fa-huge', idx, seed, tier)
+                if tier != 'quick' or nscaled % 6 == 1:
+                    yield ('fa-int', idx, seed, tier)
+    # larger scope: hundreds of iterations on records of 128-512 samples (plateaus of the stopping metric, iteration
+    # counters, anything that only happens after dozens of iterations)
+    for name in LONG_SIGNALS:
+        for ci in range(3):
+            yield ('fbl', name, seed, tier, ci)
     for name in signals.fb_names(b['fb_sizes']):
         yield ('fb', name, seed, tier)
         if name[1] <= 100:
             yield ('fb-res', name, seed, tier)
 
 
+LONG_SIGNALS = [('tone', 128, 1, 'none', 'fm'), ('noise', 200, 3, 'none', 'none'), ('tone', 512, 3, 'quad', 'am'), ('walk', 256, 5, 'none', 'none')]
+LONG_CFG = [(1e-6, 100), (1e-9, 300), (1e-12, 1000)]
+
+
 def decode_case(c):
-    return (c[0], tuple(c[1]), c[2], c[3])
+    return (c[0], tuple(c[1]), c[2], c[3]) + tuple(c[4:])
 
 
 def signal_of(case):
+    if case[0] == 'fa-int':
+        return np.array(case[1], dtype=float)       # levels 0..3; handed to the library as an int64 / int16 array
     if case[0] in ('fa', 'fa-res', 'fa-tiny', 'fa-huge'):
         x = signals.fa_signal(case[1], 4, case[2])
         if case[0] == 'fa-tiny':
@@ -188,6 +201,9 @@ def check_case(case):
     X = x[:, None]
     N = len(x)
     tier = case[3]
+    typed = None
+    if case[0] == 'fa-int':
+        typed = np.int64 if case[2] % 2 == 0 else np.int16
     b = bounds(tier)
     mx, mn = signals.strict_extrema(x)
     input_final = len(mx) < 2 or len(mn) < 2
@@ -213,7 +229,7 @@ def check_case(case):
             opts['energy_thresh'] = energy
         tag = '%s stop=%s%r step=%.3g max_iters=%d interp=%s pad=%d energy=%r' % (d, rule, par, step, max_iters, method, pad, energy)
         _calls[0] = 0
-        xin = X.copy()
+        xin = X.copy() if typed is None else X.astype(typed)
         raised = None
         try:
             imf, flag = get_next_imf(xin, **opts)
@@ -281,6 +297,12 @@ def check_case(case):
             if not input_final:
                 viols.append(('harness:extrema-count', '%s: envelope stage and own extrema counter disagree' % tag))
 
+    if case[0] == 'fbl':
+        sd, mi = LONG_CFG[case[4]]
+        seq = Seq(X, ENVS[0][0], ENVS[0][1], 1.0)
+        one(seq, 'sd', sd, 1.0, mi, ENVS[0][0], ENVS[0][1])
+        one(seq, 'rilling', (0.001, 0.01, 0.001), 1.0, mi, ENVS[0][0], ENVS[0][1])
+        return Outcome(cls='long-run', transitions=trans, viols=viols, nontrivial=maxdepth >= 33)
     if input_final:
         # every configuration takes the same one-evaluation path: run one call per rule and envelope config
         for method, pad in ENVS:
@@ -329,6 +351,6 @@ def snippet(case, kind):
 
 
 def nonvacuity(rep, ctx):
-    if not {'final', 'deep'} <= set(rep.classes):
+    if not {'final', 'deep', 'long-run'} <= set(rep.classes):
         return ['vacuous: outcome classes %r' % dict(rep.classes)]
     return []
